@@ -118,3 +118,6 @@ Definition run_mirror (ord : nat → list nat → list nat) (n : nat) (es : list
 Definition run_spec (n : nat) (es : list (nat * nat)) :=
   let g := mk_graph n es in
   if rooted_b g then Some (spec_view g) else None.
+
+(* the hash order of `for j in &idom_candidates`: any rearrangement *)
+Definition order_ok (ord : nat → list nat → list nat) : Prop := ∀ i l, ord i l ≡ₚ l.
